@@ -600,3 +600,150 @@ Proof.
   intros b m H. apply dhcp_decode_spec in H as (_ & D). unfold decoded_as in D. cbn in D.
   destruct D as (_&_&_&_&_&_&_&_&_&_&_&_&_&Hh&Hc&_). split; [exact Hh|exact Hc].
 Qed.
+
+(* ---------- the acceptor only performs server operations: accepted sequential histories are operation histories ---------- *)
+
+(* the database operations an accepted round stands for (with the clock advance before each) *)
+Definition round_ops (c : scfg) (t : table) (now : Z) (r : round) : list (Z * dbop) :=
+  match decode_chain (r_pkt r) with
+  | None => []
+  | Some (src, dst, m) =>
+    let o := decode_options (d_options m) in
+    let duid := get_duid c (d_chaddr m) (o_cid o) in
+    match msg_kind c m o with
+    | KIgnored => []
+    | KDiscover =>
+      if negb (dst =? bcast_ip) || negb (is_none (o_sid o)) then [] else
+      match r_outs r with
+      | [f] => match observed_yiaddr f with Some y => [((of_t f - now)%Z, OpHold (Some y) duid hold_ns)] | None => [] end
+      | _ => []
+      end
+    | KRequest =>
+      match classify_request c dst src o with
+      | None => []
+      | Some desired =>
+        if negb (in_managed_range (c_db c) (Some desired)) then [] else
+        match bound_ip (r_t r) duid t with
+        | None => []
+        | Some lease =>
+          if negb (lease =? desired) then [] else
+          let hold := ((r_t r - now)%Z, OpHold (Some lease) duid req_hold_ns) in
+          if negb (fst (probe_outcome (r_arp r) (d_chaddr m) lease)) then [hold] else
+          match r_outs r with
+          | [f] => [hold; ((of_t f - r_t r)%Z, OpUpdate (Some lease) duid (c_lease c))]
+          | _ => [hold]
+          end
+        end
+      end
+    end
+  end.
+
+Lemma t_final_app x h1 : forall h2 t now, t_final x t now (h1 ++ h2) = t_final x (fst (t_final x t now h1)) (snd (t_final x t now h1)) h2.
+Proof.
+  induction h1 as [|[dt op] h1 IH]; intros h2 t now; cbn [app t_final]; [reflexivity|].
+  destruct (t_step x t (now + dt) op) as [[res t'] now']. apply IH.
+Qed.
+
+Lemma racc_id (x : racc) t0 : match x with RAcc t' => RAcc t' | RRej _ => x end = RAcc t0 -> x = RAcc t0.
+Proof. destruct x; auto. Qed.
+
+(* an accepted round changes the table exactly as its operations do *)
+Theorem accepted_round_is_ops c t now r t' :
+  r_has_snap r = false -> accept_round c t r = RAcc t' ->
+  fst (t_final (c_db c) t now (round_ops c t now r)) = t'.
+Proof.
+  intros Hs H. unfold accept_round in H. rewrite Hs in H. apply racc_id in H. unfold round_ops.
+  destruct (decode_chain (r_pkt r)) as [[[src dst] m]|]; [|destruct (r_outs r); [injection H as <-; reflexivity|discriminate]].
+  set (o := decode_options (d_options m)) in *.
+  destruct (msg_kind c m o).
+  - (* DISCOVER *)
+    unfold accept_discover in H. cbv zeta in H.
+    destruct (negb (dst =? bcast_ip) || negb (is_none (o_sid o))); [destruct (r_outs r); [injection H as <-; reflexivity|discriminate]|].
+    destruct (r_outs r) as [|f [|? ?]]; [| |discriminate].
+    + match type of H with (if ?b then _ else _) = _ => destruct b end; [injection H as <-; reflexivity|discriminate].
+    + destruct (observed_yiaddr f) as [y|]; [|discriminate].
+      destruct (negb (frame_eqb f (reply_lease c gf_dhcpmsg_MsgTypeOffer m y))); [discriminate|].
+      destruct (of_t f <? r_t r)%Z; [discriminate|].
+      match type of H with (if ?b then _ else _) = _ => destruct b end; [|discriminate].
+      cbn [t_final t_step]. replace (now + (of_t f - now))%Z with (of_t f) by lia.
+      destruct (t_hold_client (c_db c) (of_t f) (Some y) (get_duid c (d_chaddr m) (o_cid o)) hold_ns t) as [ok t1].
+      destruct ok; [injection H as <-; reflexivity|discriminate].
+  - (* REQUEST *)
+    unfold accept_request in H. cbv zeta in H.
+    destruct (classify_request c dst src o) as [desired|]; [|destruct (r_outs r); [injection H as <-; reflexivity|discriminate]].
+    destruct (negb (in_managed_range (c_db c) (Some desired))); [destruct (r_outs r); [injection H as <-; reflexivity|discriminate]|].
+    destruct (bound_ip (r_t r) (get_duid c (d_chaddr m) (o_cid o)) t) as [lease|].
+    2:{ destruct (r_outs r) as [|f [|? ?]]; try discriminate. match type of H with (if ?b then _ else _) = _ => destruct b end; [injection H as <-; reflexivity|discriminate]. }
+    destruct (negb (lease =? desired)).
+    { destruct (r_outs r) as [|f [|? ?]]; try discriminate. match type of H with (if ?b then _ else _) = _ => destruct b end; [injection H as <-; reflexivity|discriminate]. }
+    destruct (t_hold_client (c_db c) (r_t r) (Some lease) (get_duid c (d_chaddr m) (o_cid o)) req_hold_ns t) as [okh t1] eqn:Eh.
+    destruct okh; cbn [negb] in H; [|discriminate].
+    destruct (probe_outcome (r_arp r) (d_chaddr m) lease) as [free cost]. cbn [fst].
+    destruct free; cbn [negb] in *.
+    + destruct (r_outs r) as [|f [|? ?]]; try discriminate.
+      destruct (negb (frame_eqb f (reply_lease c gf_dhcpmsg_MsgTypeAck m lease))); [discriminate|].
+      destruct (of_t f <? r_t r)%Z; [discriminate|].
+      cbn [t_final t_step]. replace (now + (r_t r - now))%Z with (r_t r) by lia. rewrite Eh.
+      replace (r_t r + (of_t f - r_t r))%Z with (of_t f) by lia.
+      destruct (t_update_client (c_db c) (of_t f) (Some lease) (get_duid c (d_chaddr m) (o_cid o)) (c_lease c) t1) as [ok t2].
+      destruct ok; [injection H as <-; reflexivity|discriminate].
+    + destruct (r_outs r) as [|f [|? ?]]; try discriminate.
+      match type of H with (if ?b then _ else _) = _ => destruct b end; [|discriminate]. injection H as <-.
+      cbn [t_final t_step]. replace (now + (r_t r - now))%Z with (r_t r) by lia. rewrite Eh. reflexivity.
+  - destruct (r_outs r); [injection H as <-; reflexivity|discriminate].
+Qed.
+
+Lemma sv_ok_nil L : sv_ok L [].
+Proof. split; constructor. Qed.
+Lemma sv_ok_hold L dt ip d ttl rest : (0 <= dt)%Z -> (0 <= ttl <= L)%Z -> sv_ok L rest -> sv_ok L ((dt, OpHold ip d ttl) :: rest).
+Proof. intros Hd Ht [A B]. split; constructor; cbn; auto. Qed.
+Lemma sv_ok_update L dt ip d rest : (0 <= dt)%Z -> sv_ok L rest -> sv_ok L ((dt, OpUpdate ip d L) :: rest).
+Proof. intros Hd [A B]. split; constructor; cbn; auto. Qed.
+
+(* these operations are server operations (lease L = configured lease, holds not longer than L), issued at
+   non-decreasing clock readings when the round's times are ordered *)
+Theorem round_ops_are_server_ops c t now r :
+  (now <= r_t r)%Z -> (forall f, In f (r_outs r) -> (r_t r <= of_t f)%Z) ->
+  (0 <= hold_ns <= c_lease c)%Z -> (0 <= req_hold_ns <= c_lease c)%Z ->
+  sv_ok (c_lease c) (round_ops c t now r).
+Proof.
+  intros Hn Hf Hh Hr. unfold round_ops.
+  destruct (decode_chain (r_pkt r)) as [[[src dst] m]|]; [|apply sv_ok_nil].
+  set (o := decode_options (d_options m)).
+  destruct (msg_kind c m o); try apply sv_ok_nil.
+  - destruct (negb (dst =? bcast_ip) || negb (is_none (o_sid o))); [apply sv_ok_nil|].
+    destruct (r_outs r) as [|f [|? ?]] eqn:Eo; try apply sv_ok_nil.
+    destruct (observed_yiaddr f); [|apply sv_ok_nil].
+    assert (r_t r <= of_t f)%Z by (apply Hf; left; reflexivity).
+    apply sv_ok_hold; [lia|exact Hh|apply sv_ok_nil].
+  - destruct (classify_request c dst src o) as [desired|]; [|apply sv_ok_nil].
+    destruct (negb (in_managed_range (c_db c) (Some desired))); [apply sv_ok_nil|].
+    destruct (bound_ip (r_t r) (get_duid c (d_chaddr m) (o_cid o)) t) as [lease|]; [|apply sv_ok_nil].
+    destruct (negb (lease =? desired)); [apply sv_ok_nil|].
+    destruct (negb (fst (probe_outcome (r_arp r) (d_chaddr m) lease))); [apply sv_ok_hold; [lia|exact Hr|apply sv_ok_nil]|].
+    destruct (r_outs r) as [|f [|? ?]] eqn:Eo; try (apply sv_ok_hold; [lia|exact Hr|apply sv_ok_nil]).
+    assert (r_t r <= of_t f)%Z by (apply Hf; left; reflexivity).
+    apply sv_ok_hold; [lia|exact Hr|]. apply sv_ok_update; [lia|apply sv_ok_nil].
+Qed.
+
+(* hence the lease-table invariant and the exclusivity of the reservation log carry over every accepted
+   round (and, by induction, every accepted sequential history with ordered times) *)
+Theorem accepted_round_keeps_invariant c t now log r t' :
+  r_has_snap r = false -> accept_round c t r = RAcc t' ->
+  (now <= r_t r)%Z -> (forall f, In f (r_outs r) -> (r_t r <= of_t f)%Z) ->
+  (0 <= hold_ns <= c_lease c)%Z -> (0 <= req_hold_ns <= c_lease c)%Z ->
+  LInv (c_lease c) now t log -> excl_log log ->
+  let '(t2, now2, log2) := g_run (c_db c) t now (round_ops c t now r) log in
+  t2 = t' /\ LInv (c_lease c) now2 t2 log2 /\ excl_log log2 /\ (now <= now2)%Z.
+Proof.
+  intros Hs Ha Hn Hf Hh Hr I Ex.
+  pose proof (round_ops_are_server_ops c t now r Hn Hf Hh Hr) as Hsv.
+  pose proof (lease_invariants (c_lease c) (c_db c) (round_ops c t now r) ltac:(lia) t now log Hsv I Ex) as Hinv.
+  pose proof (accepted_round_is_ops c t now r t' Hs Ha) as Hops.
+  assert (Hg : forall h tt nn ll, fst (fst (g_run (c_db c) tt nn h ll)) = fst (t_final (c_db c) tt nn h)).
+  { induction h as [|[dt op] h IH]; intros tt nn ll; cbn [g_run t_final]; [reflexivity|].
+    destruct (t_step (c_db c) tt (nn + dt) op) as [[res tq] nq]. apply IH. }
+  specialize (Hg (round_ops c t now r) t now log).
+  destruct (g_run (c_db c) t now (round_ops c t now r) log) as [[t2 now2] log2]. cbn in Hg.
+  destruct Hinv as (A & B & C). split; [congruence|auto].
+Qed.
